@@ -262,6 +262,51 @@ def tlc(module, cfg, workers=8, timeout=3600, simulate=None, depth=None, env=Non
     return res
 
 
+def tlc_stream(module, cfg, stats, workers=8, timeout=14400, name=None, batch=20000):
+    """Like tlc_check, but yields the REPLAY records in batches while TLC runs (the large configurations print
+    hundreds of thousands of behaviours: holding them all costs tens of gigabytes).  `stats` receives states /
+    transitions / wall_s; a TLC error raises ToolError after the last batch."""
+    name = name or (os.path.splitext(os.path.basename(cfg))[0])
+    wd = workdir("tlc_" + name)
+    xss = os.environ.get("VERIF_TLC_XSS", "256m")
+    cmd = ["java", "-Xss" + xss, "-XX:+UseParallelGC", "-cp", TLA_CP, "tlc2.TLC", "-workers", str(workers), "-config", os.path.join(SPEC, cfg),
+           "-metadir", os.path.join(wd, "states"), "-cleanup", "-noGenerateSpecTE", "-seed", str(SEED), os.path.join(SPEC, module)]
+    e = dict(os.environ)
+    e["JAVA_TOOL_OPTIONS"] = "-Xss" + xss
+    t0 = time.time()
+    p = subprocess.Popen(cmd, cwd=wd, env=e, stdout=subprocess.PIPE, stderr=subprocess.DEVNULL, text=True, bufsize=1 << 20)
+    other = []
+    cur = []
+    try:
+        for line in p.stdout:
+            if time.time() - t0 > timeout:
+                p.kill()
+                raise ToolError("TLC timed out after %ds on %s/%s" % (timeout, module, cfg))
+            m = _TLA_STR.match(line.rstrip("\n")) if line.startswith('"') else None
+            if m and (m.group(1).startswith("{\\\"R\\\":") or m.group(1).startswith('{\\"R\\"')):
+                cur.append(json.loads(_tla_unescape(m.group(1))))
+                if len(cur) >= batch:
+                    yield cur
+                    cur = []
+            else:
+                if len(other) < 5000:
+                    other.append(line)
+        p.wait()
+    finally:
+        if p.poll() is None:
+            p.kill()
+        shutil.rmtree(os.path.join(wd, "states"), ignore_errors=True)
+    if cur:
+        yield cur
+    out = "".join(other)
+    m = re.search(r"(\d+) states generated, (\d+) distinct states found", out)
+    stats["states"] = int(m.group(2)) if m else 0
+    stats["transitions"] = int(m.group(1)) if m else 0
+    stats["wall_s"] = time.time() - t0
+    if p.returncode != 0 or "Error:" in out:
+        raise ToolError("TLC reports an error on %s/%s:\n%s" % (module, cfg, out[-3000:]))
+
+
 def tlc_check(module, cfg, **kw):
     """Model-check a spec; a violated invariant of the *spec* is a tool error (the oracle is incoherent)."""
     r = tlc(module, cfg, **kw)
